@@ -10,6 +10,7 @@
 import Fadl.Model.Simplify
 import Fadl.Lemmas.LazyRules
 import Fadl.Lemmas.Coincide
+import Fadl.Lemmas.MonoLz
 namespace Fadl
 set_option linter.unusedSimpArgs false
 
@@ -116,10 +117,44 @@ theorem denLz_op2_op2 (w : World) (env : Env) (op1 op2 : String)
     | ok vs =>
       simp only [hs, bind, Except.bind]
 
-theorem src_congr (w : World) (env : Env) (src : Expr) {A B : List Val → Res} (h : ∀ vs, A vs = B vs) :
+theorem src_congr (w : World) (env : Env) (src : Expr) {A B : List Val → Res}
+    (h : ∀ s vs, denLz w src env = .ok s → asSeq s = .ok vs → A vs = B vs) :
     (do let s ← denLz w src env; let vs ← asSeq s; A vs) = (do let s ← denLz w src env; let vs ← asSeq s; B vs) := by
-  have : A = B := funext h
-  rw [this]
+  cases hs : denLz w src env with
+  | error e => rfl
+  | ok s =>
+    cases hv : asSeq s with
+    | error e => simp [hv, bind, Except.bind]
+    | ok vs => simp only [hv, bind, Except.bind]; exact h s vs hs hv
+
+theorem VLeL.mem_wf : ∀ {vs : List Val}, VLeL vs vs → ∀ v ∈ vs, ∀ x, force v = .ok x → VLe x x
+  | [], _, v, hv, _, _ => by simp at hv
+  | a :: as, h, v, hv, x, hx => by
+    rw [VLeL_cons] at h
+    rcases List.mem_cons.mp hv with rfl | hv
+    · have hnp : ∀ e, v ≠ .poison e := by intro e he; subst he; simp [force] at hx
+      have := VLeE.of_ne_poison h.1 hnp
+      rw [this.force.1] at hx; cases hx; exact this
+    · exact VLeL.mem_wf h.2 v hv x hx
+
+/-- a lambda applied to the elements of a sequence an expression evaluated to never returns a deferred failure
+    as its value -/
+theorem noPoisonOn_lam (w : World) (hw : WorldOK w) (env : Env) (henv : EnvLe env env) (src l : Expr) (s : Val) (vs : List Val)
+    (hs : denLz w src env = .ok s) (hv : asSeq s = .ok vs) : NoPoisonOn (applyLam1 (denLamLz w l) env) vs := by
+  have hwf := denLz_wf w hw src env henv s hs
+  cases s <;> simp [asSeq] at hv
+  subst hv
+  simp only [VLe] at hwf
+  intro v hvm x hx e
+  have hxx := VLeL.mem_wf hwf v hvm x hx
+  cases l with
+  | lam ps b =>
+    simp only [denLamLz]
+    match ps with
+    | [y] => simp only [applyLam1]; exact denLz_noPoison w hw b _ (henv.upd y hxx) e
+    | [] => simp [applyLam1]
+    | _ :: _ :: _ => simp [applyLam1]
+  | _ => simp [denLamLz, applyLam1]
 
 theorem src_le (w : World) (env : Env) (src : Expr) {A B : List Val → Res} (h : ∀ vs, ELe (A vs) (B vs)) :
     ELe (do let s ← denLz w src env; let vs ← asSeq s; A vs) (do let s ← denLz w src env; let vs ← asSeq s; B vs) := by
@@ -139,29 +174,31 @@ theorem selL_congr {f g : Val → Res} (h : ∀ u, f u = g u) (vs : List Val) : 
 /-- **Select ∘ Select** -/
 theorem rule_select_select (w : World) (env : Env) (src : Expr) (z : String) (gps fps : List String) (gb fb : Expr)
     (hzf : z ∉ fv (.lam fps fb)) (hzg : z ∉ fv (.lam gps gb))
-    (hnp : NoPoison (applyLam1 (denLamLz w (.lam fps fb)) env)) :
+    (hw : WorldOK w) (henv : EnvLe env env) :
     denLz w (fcall "Select" [fcall "Select" [src, .lam fps fb], .lam gps gb]) env =
     denLz w (fcall "Select" [src, convLam z (.lam gps gb) (.lam fps fb)]) env := by
   rw [denLz_op2_op2 w env "Select" "Select" (Or.inl rfl) (Or.inl rfl), denLz_op2 w env "Select" (Or.inl rfl)]
   apply src_congr
-  intro vs
+  intro s vs hs hv
+  have hnp := noPoisonOn_lam w hw env henv src (.lam fps fb) s vs hs hv
   simp only [seqOp2Lz_select, asSeq_list, bind, Except.bind]
-  rw [sel_sel _ _ hnp]
+  rw [sel_sel _ _ vs hnp]
   congr 2
   exact selL_congr (fun u => (convLam_sem w env z gps fps gb fb hzf hzg u).symm) vs
 
 /-- **SelectMany ∘ Select** -/
 theorem rule_selectMany_select (w : World) (env : Env) (src : Expr) (z : String) (gps fps : List String) (gb fb : Expr)
     (hzf : z ∉ fv (.lam fps fb)) (hzg : z ∉ fv (.lam gps gb))
-    (hnp : NoPoison (applyLam1 (denLamLz w (.lam fps fb)) env)) :
+    (hw : WorldOK w) (henv : EnvLe env env) :
     denLz w (fcall "SelectMany" [fcall "Select" [src, .lam fps fb], .lam gps gb]) env =
     denLz w (fcall "SelectMany" [src, convLam z (.lam gps gb) (.lam fps fb)]) env := by
   rw [denLz_op2_op2 w env "Select" "SelectMany" (Or.inl rfl) (Or.inr (Or.inr rfl)),
     denLz_op2 w env "SelectMany" (Or.inr (Or.inr rfl))]
   apply src_congr
-  intro vs
+  intro s vs hs hv
+  have hnp := noPoisonOn_lam w hw env henv src (.lam fps fb) s vs hs hv
   simp only [seqOp2Lz_select, seqOp2Lz_many, asSeq_list, bind, Except.bind]
-  rw [many_sel _ _ hnp]
+  rw [many_sel _ _ vs hnp]
   have : (fun x => applyLam1 (denLamLz w (.lam fps fb)) env x >>= applyLam1 (denLamLz w (.lam gps gb)) env) =
       applyLam1 (denLamLz w (convLam z (.lam gps gb) (.lam fps fb))) env :=
     funext (fun u => (convLam_sem w env z gps fps gb fb hzf hzg u).symm)
@@ -170,15 +207,16 @@ theorem rule_selectMany_select (w : World) (env : Env) (src : Expr) (z : String)
 /-- **Where ∘ Select**: filter first (on the composition), then map -/
 theorem rule_where_select (w : World) (env : Env) (src : Expr) (z : String) (gps fps : List String) (gb fb : Expr)
     (hzf : z ∉ fv (.lam fps fb)) (hzg : z ∉ fv (.lam gps gb))
-    (hnp : NoPoison (applyLam1 (denLamLz w (.lam fps fb)) env)) :
+    (hw : WorldOK w) (henv : EnvLe env env) :
     denLz w (fcall "Where" [fcall "Select" [src, .lam fps fb], .lam gps gb]) env =
     denLz w (fcall "Select" [fcall "Where" [src, convLam z (.lam gps gb) (.lam fps fb)], .lam fps fb]) env := by
   rw [denLz_op2_op2 w env "Select" "Where" (Or.inl rfl) (Or.inr (Or.inl rfl)),
     denLz_op2_op2 w env "Where" "Select" (Or.inr (Or.inl rfl)) (Or.inl rfl)]
   apply src_congr
-  intro vs
+  intro s vs hs hv
+  have hnp := noPoisonOn_lam w hw env henv src (.lam fps fb) s vs hs hv
   simp only [seqOp2Lz_select, seqOp2Lz_where, asSeq_list, bind, Except.bind]
-  rw [whr_sel _ _ hnp]
+  rw [whr_sel _ _ vs hnp]
   have : (fun x => applyLam1 (denLamLz w (.lam fps fb)) env x >>= applyLam1 (denLamLz w (.lam gps gb)) env) =
       applyLam1 (denLamLz w (convLam z (.lam gps gb) (.lam fps fb))) env :=
     funext (fun u => (convLam_sem w env z gps fps gb fb hzf hzg u).symm)
@@ -257,7 +295,7 @@ theorem rule_select_selectMany (w : World) (env : Env) (src : Expr) (fps : List 
   rw [denLz_op2_op2 w env "SelectMany" "Select" (Or.inr (Or.inr rfl)) (Or.inl rfl),
     denLz_op2 w env "SelectMany" (Or.inr (Or.inr rfl))]
   apply src_congr
-  intro vs
+  intro s vs _ _
   simp only [seqOp2Lz_select, seqOp2Lz_many]
   have : applyLam1 (denLamLz w (.lam fps (fcall "Select" [fb, g]))) env =
       innerOp "Select" (applyLam1 (denLamLz w (.lam fps fb)) env) (applyLam1 (denLamLz w g) env) :=
@@ -322,8 +360,7 @@ theorem rule_selectMany_selectMany (w : World) (env : Env) (src : Expr) (fps : L
 /-! ### pushing an access on `First(seq)` into the sequence -/
 
 /-- **First(seq).a  =  First(Select(seq, lambda z: z.a))** -/
-theorem rule_first_attr (w : World) (env : Env) (s : Expr) (a z : String)
-    (hnp : NoPoison (fun u => getAttrLz u a)) :
+theorem rule_first_attr (w : World) (hw : WorldOK w) (env : Env) (henv : EnvLe env env) (s : Expr) (a z : String) :
     denLz w (.attr (fcall "First" [s]) a) env =
     denLz w (fcall "First" [fcall "Select" [s, .lam [z] (.attr (.name z) a)]]) env := by
   rw [denLz_first, denLz_op2 w env "Select" (Or.inl rfl)]
@@ -333,20 +370,27 @@ theorem rule_first_attr (w : World) (env : Env) (s : Expr) (a z : String)
     funext u
     simp [denLamLz, applyLam1, denLz, Env.upd, bind, Except.bind]
   rw [hF]
-  cases denLz w s env with
+  cases hsv : denLz w s env with
   | error e => rfl
   | ok v =>
     cases hs : asSeq v with
     | error e => simp [bind, Except.bind, hs]
     | ok vs =>
       simp only [bind, Except.bind, hs, seqOp2Lz_select, asSeq_list]
-      have := first_sel (fun u => getAttrLz u a) hnp vs
+      have hnp : NoPoisonOn (fun u => getAttrLz u a) vs := by
+        have hwf := denLz_wf w hw s env henv v hsv
+        cases v <;> simp [asSeq] at hs
+        subst hs
+        simp only [VLe] at hwf
+        intro u hu x hx e he
+        obtain ⟨y, hy, hyy⟩ := getAttrLz_mono a (VLeL.mem_wf hwf u hu x hx) _ he
+        exact VLe_poison_left hyy
+      have := first_sel (fun u => getAttrLz u a) vs hnp
       simp only [bind, Except.bind] at this
       rw [this]
 
 /-- **First(seq)[i]  =  First(Select(seq, lambda z: z[i]))** for `z` not free in `i` -/
-theorem rule_first_sub (w : World) (env : Env) (s i : Expr) (z : String) (hz : z ∉ fv i)
-    (hnp : NoPoison (fun u => denLz w i env >>= subscriptLz u)) :
+theorem rule_first_sub (w : World) (hw : WorldOK w) (env : Env) (henv : EnvLe env env) (s i : Expr) (z : String) (hz : z ∉ fv i) :
     denLz w (.sub (fcall "First" [s]) i) env =
     denLz w (fcall "First" [fcall "Select" [s, .lam [z] (.sub (.name z) i)]]) env := by
   rw [denLz_first, denLz_op2 w env "Select" (Or.inl rfl)]
@@ -359,14 +403,27 @@ theorem rule_first_sub (w : World) (env : Env) (s i : Expr) (z : String) (hz : z
     rw [hi]
     simp [Env.upd, bind, Except.bind]
   rw [hF]
-  cases denLz w s env with
+  cases hsv : denLz w s env with
   | error e => rfl
   | ok v =>
     cases hs : asSeq v with
     | error e => simp [bind, Except.bind, hs]
     | ok vs =>
       simp only [bind, Except.bind, hs, seqOp2Lz_select, asSeq_list]
-      have := first_sel (fun u => denLz w i env >>= subscriptLz u) hnp vs
+      have hnp : NoPoisonOn (fun u => denLz w i env >>= subscriptLz u) vs := by
+        have hwf := denLz_wf w hw s env henv v hsv
+        cases v <;> simp [asSeq] at hs
+        subst hs
+        simp only [VLe] at hwf
+        intro u hu x hx e he
+        have hxx := VLeL.mem_wf hwf u hu x hx
+        cases hi : denLz w i env with
+        | error e' => simp [hi, bind, Except.bind] at he
+        | ok iv =>
+          simp only [hi, bind, Except.bind] at he
+          obtain ⟨y, hy, hyy⟩ := subscriptLz_mono hxx (denLz_wf w hw i env henv iv hi) _ he
+          exact VLe_poison_left hyy
+      have := first_sel (fun u => denLz w i env >>= subscriptLz u) vs hnp
       simp only [bind, Except.bind] at this
       rw [this]
 
